@@ -37,6 +37,7 @@ type Suite struct {
 	Notes      map[string]interface{}
 	Nontrivial map[string]bool // distinct non-trivial case keys
 	mu         sync.Mutex      // Violate and Count may be called from several goroutines
+	partial    *os.File        // violations as they are found (survives a crash of the process)
 }
 
 func NewSuite() *Suite {
@@ -57,6 +58,14 @@ func (s *Suite) Violate(what, detail string, replay V) {
 	}
 	if len(s.Violations) < 200 {
 		s.Violations = append(s.Violations, Violation{What: what, Detail: detail, Replay: replay, ReplayS: rs})
+		// also on disk at once: a later crash of the process (a panic in a goroutine of the library cannot be recovered)
+		// must not lose the failing inputs found so far
+		if s.partial != nil {
+			if b, err := json.Marshal(map[string]string{"what": what, "detail": detail, "replay": rs}); err == nil {
+				s.partial.Write(append(b, '\n'))
+				s.partial.Sync()
+			}
+		}
 	} else {
 		s.Dist["violations-not-listed(>200)"]++
 	}
@@ -96,6 +105,11 @@ func main() {
 		os.Exit(2)
 	}
 	s := NewSuite()
+	os.MkdirAll(*out, 0o755)
+	if pf, err := os.Create(filepath.Join(*out, "violations.partial.jsonl")); err == nil {
+		s.partial = pf
+		defer pf.Close()
+	}
 	rng := NewRng(*seed)
 	func() {
 		// an honest operation the suite relies on failed hard: that is a finding about the implementation
